@@ -211,12 +211,12 @@ func (up *UsagePool) Delete(key any) (deleted bool, err error) {
 // key in the pool, and true if the key exists, or false otherwise.
 func (up *UsagePool) References(key any) (int, bool) {
 	up.RLock()
+	defer up.RUnlock()
 	upv, loaded := up.pool[key]
-	up.RUnlock()
 	if loaded {
-		// I wonder if it'd be safer to read this value during
-		// our lock on the UsagePool... guess we'll see...
-		verifYield(up, 5, upv)
+		// read the count while we hold our lock on the UsagePool:
+		// once the lock is released the value can be deleted, and
+		// we would report a key that exists with 0 references
 		refs := atomic.LoadInt32(&upv.refs)
 		return int(refs), true
 	}
